@@ -159,7 +159,7 @@ def run(ck: Check):
                     from sidemantic.core.relative_date import RelativeDateRange
                     if RelativeDateRange.is_relative_date(v):
                         key = "F14c-relative-date-phrase"
-                    elif ("\\" in v and dialect in ("bigquery", "clickhouse", "databricks", "spark", "snowflake", "mysql")) or ("'" in v and dialect == "bigquery"):
+                    elif ("\\" in v and dialect in ("bigquery", "clickhouse", "databricks", "spark", "snowflake", "mysql")) or ("'" in v and dialect in ("bigquery", "databricks", "spark")):   # dialects where '' is two adjacent literals, not an escape
                         key = "F14e-backslash-dialect"
                 try:
                     s, lits = shape(sql, dialect)
